@@ -97,6 +97,10 @@ class Scheduler:
         self.concurrency_probe = {"two_in_parse_same_object": 0, "preempted_in_optimize_while_other_parses": 0, "exec_overlaps_parse": 0}
         self.active_kind = [None] * n_clients  # what each client is in the middle of: (kind, target)
         self.errors: list[str] = []
+        # optional per-operation line log (function, line) per step -- used by sweep plans to
+        # tell the lines only a COLD call executes from those every call executes
+        self.line_logs: dict | None = None
+        self.cur_log: list | None = None
 
     # ------------------------------------------------------------------ policy helpers
     def _draw_gap(self):
@@ -185,6 +189,8 @@ class Scheduler:
         self.op_steps[me] = 0
         self.active_kind[me] = (kind, target)
         self.log.update(b"B%d:%s;" % (me, str(oid).encode()))
+        if self.line_logs is not None:
+            self.cur_log = self.line_logs.setdefault(oid, [])
 
     def end_op(self, me):
         """Operation boundary: always a scheduling point (the only one under `seq`)."""
@@ -267,6 +273,8 @@ class Scheduler:
         # event-log digest: a rolling 60-bit hash of (client, line) per step, folded into the
         # blake2 log at every operation boundary, switch and fault
         self.roll = ((self.roll * 1000003) ^ (frame.f_lineno + (me << 24))) & 0xFFFFFFFFFFFFFFF
+        if self.cur_log is not None:
+            self.cur_log.append((frame.f_code.co_name, frame.f_lineno))
         if self.cur_faults[me] is not None or steps > self.step_cap or off > self.op_step_cap:
             self.step_slow(frame, me, off)
         if self.no_preempt[me]:
